@@ -22,6 +22,7 @@ from hypergraph.viz._common import (
     build_expansion_state,
     build_output_to_producer_map,
     build_param_to_consumer_map,
+    get_visible_representative,
     is_descendant_of,
     is_node_visible,
 )
@@ -508,7 +509,8 @@ def _resolve_data_source(
     if source_attrs.get("node_type") == "GRAPH" and expansion_state.get(source, False) and value_name:
         internal = output_to_producer.get(value_name)
         if internal and internal != source and is_descendant_of(internal, source, flat_graph):
-            actual_source = internal
+            # a producer inside a still-collapsed inner container is drawn as that container
+            actual_source = get_visible_representative(internal, flat_graph, expansion_state)
         else:
             found = find_internal_producer_for_output(
                 source,
